@@ -903,16 +903,27 @@ fn main() {
     let mut fjobs: Vec<(String, FJob)> = vec![];
     let mut stride_notes: Vec<String> = vec![];
     // `target` = largest number of assignment indices to explore (the stride is derived from it)
-    let mut add = |key: String, size: Option<(u64, u64, u32)>, target: u64, chunk: usize, all: bool, mk: &dyn Fn(u32, Vec<u64>, bool) -> FJob| {
+    // `kinds`: cell kinds (region name, column, offset) of a traced honest run; the first and the
+    // last assignment of every kind are explored in addition to the stride, so that no region
+    // shape of the chip is skipped however sparse the stride is
+    let mut add = |key: String, size: Option<(u64, u64, u32)>, target: u64, chunk: usize, all: bool, kinds: Option<Vec<(String, Vec<u64>)>>, mk: &dyn Fn(u32, Vec<u64>, bool) -> FJob| {
         let Some((n, unt, k)) = size else {
             stride_notes.push(format!("{key}: no accepted honest run available, fault exploration skipped"));
             return;
         };
         let stride = ((n + target - 1) / target.max(1)).max(1);
         let r = stride / 2;
-        let idxs: Vec<u64> = (0..n).filter(|i| i % stride == r).collect();
+        let mut idxs: Vec<u64> = if target == 0 { vec![] } else { (0..n).filter(|i| i % stride == r).collect() };
+        let n_stride = idxs.len();
+        let mut n_kinds = 0;
+        if let Some(kinds) = &kinds {
+            n_kinds = kinds.len();
+            idxs.extend(vgad::kind_representatives(kinds, 2));
+            idxs.sort();
+            idxs.dedup();
+        }
         stride_notes.push(format!(
-            "{key}: N = {n} tamperable advice assignments ({unt} untamperable, k = {k}); indices i = {r} (mod {stride}) -> {} indices x {} fault values",
+            "{key}: N = {n} tamperable advice assignments ({unt} untamperable, k = {k}); indices i = {r} (mod {stride}) ({n_stride} indices) + first/last of {n_kinds} cell kinds -> {} indices x {} fault values",
             idxs.len(),
             if all { 8 } else { 4 }
         ));
@@ -937,7 +948,7 @@ fn main() {
             input: ZIn::Poseidon(vec![F::random(&mut rng), F::random(&mut rng)], params.clone()),
             content: "fault-seeded".into(),
         };
-        add(c.key(), vcore::in_pool(1, || measure_z(&c)), u64::MAX / 2, 8, true, &|k, i, a| FJob::Z(c.clone(), k, i, a));
+        add(c.key(), vcore::in_pool(1, || measure_z(&c)), u64::MAX / 2, 8, true, None, &|k, i, a| FJob::Z(c.clone(), k, i, a));
         // variable-length Poseidon, odd length (the last chunk has a filler slot)
         let c = PoseidonVarCase {
             max: 8,
@@ -947,7 +958,7 @@ fn main() {
             seed,
             params: params.clone(),
         };
-        add(fs::FsCase::key(&c), vcore::in_pool(1, || measure_fs(&c, 14)), tier.pick(250, u64::MAX / 2), 16, thorough, &|k, i, a| FJob::PosVar(c.clone(), k, i, a));
+        add(fs::FsCase::key(&c), vcore::in_pool(1, || measure_fs(&c, 14)), tier.pick(250, u64::MAX / 2), 16, thorough, None, &|k, i, a| FJob::PosVar(c.clone(), k, i, a));
         // sponge: absorb, squeeze twice, absorb, squeeze
         let c = SpongeCase {
             input_len: None,
@@ -955,18 +966,15 @@ fn main() {
             content: "fault-seeded".into(),
             params: params.clone(),
         };
-        add(fs::FsCase::key(&c), vcore::in_pool(1, || measure_fs(&c, 12)), u64::MAX / 2, 16, thorough, &|k, i, a| FJob::Sponge(c.clone(), k, i, a));
+        add(fs::FsCase::key(&c), vcore::in_pool(1, || measure_fs(&c, 12)), u64::MAX / 2, 16, thorough, None, &|k, i, a| FJob::Sponge(c.clone(), k, i, a));
     }
     if thorough {
         for (h, target) in [(ByteHash::Sha512, 600u64), (ByteHash::Sha3_256, 300), (ByteHash::Keccak256, 300), (ByteHash::Blake2b256, 100), (ByteHash::Blake2b512, 100)] {
             let c = zbytes(h, 1, "seeded");
-            add(c.key(), sizes.get(&c.key()).copied(), target, 4, false, &|k, i, a| FJob::Z(c.clone(), k, i, a));
+            let sz = sizes.get(&c.key()).copied();
+            let kinds = sz.and_then(|(_, _, k)| vcore::in_pool(1, || vgad::trace_kinds(&c, k)));
+            add(c.key(), sz, target, 4, false, kinds, &|k, i, a| FJob::Z(c.clone(), k, i, a));
         }
-        let c = RipemdCase {
-            msg: content("seeded", 1, seed, "ripemd160"),
-            content: "seeded".into(),
-        };
-        add(fs::FsCase::key(&c), sizes.get(&fs::FsCase::key(&c)).copied(), 600, 4, false, &|k, i, a| FJob::Rip(c.clone(), k, i, a));
         let c = ShaVarCase {
             max: 64,
             data: content("counter", 3, seed, "shavar"),
@@ -974,12 +982,26 @@ fn main() {
             filler: Filler::Seeded,
             seed,
         };
-        add(fs::FsCase::key(&c), sizes.get(&fs::FsCase::key(&c)).copied(), 300, 4, false, &|k, i, a| FJob::ShaVar(c.clone(), k, i, a));
+        let sz = sizes.get(&fs::FsCase::key(&c)).copied();
+        let kinds = sz.and_then(|(_, _, k)| vcore::in_pool(1, || fs::trace_kinds(&c, k)));
+        add(fs::FsCase::key(&c), sz, 300, 4, false, kinds, &|k, i, a| FJob::ShaVar(c.clone(), k, i, a));
     }
     {
-        // SHA-256, one block: a stride in quick, every assignment in thorough (last: it is the longest sweep)
+        // RIPEMD-160, one block: every cell kind in quick (no stride), kinds + stride in thorough
+        let c = RipemdCase {
+            msg: content("seeded", 1, seed, "ripemd160"),
+            content: "seeded".into(),
+        };
+        let sz = sizes.get(&fs::FsCase::key(&c)).copied();
+        let kinds = sz.and_then(|(_, _, k)| vcore::in_pool(1, || fs::trace_kinds(&c, k)));
+        add(fs::FsCase::key(&c), sz, tier.pick(0, 600), 4, false, kinds, &|k, i, a| FJob::Rip(c.clone(), k, i, a));
+    }
+    {
+        // SHA-256, one block: a stride plus every cell kind in quick, every assignment in thorough (last: it is the longest sweep)
         let c = zbytes(ByteHash::Sha256, 3, "counter");
-        add(c.key(), sizes.get(&c.key()).copied(), tier.pick(400, u64::MAX / 2), 6, thorough, &|k, i, a| FJob::Z(c.clone(), k, i, a));
+        let sz = sizes.get(&c.key()).copied();
+        let kinds = sz.and_then(|(_, _, k)| vcore::in_pool(1, || vgad::trace_kinds(&c, k)));
+        add(c.key(), sz, tier.pick(400, u64::MAX / 2), 6, thorough, kinds, &|k, i, a| FJob::Z(c.clone(), k, i, a));
     }
     drop(add);
     for n in &stride_notes {
